@@ -477,9 +477,170 @@ RdSvcb(toks, i, mode, origin, dv) ==
         ELSE IF p.v = 0 /\ ps.ps # <<>> THEN UnmodR
         ELSE RdOk(EncU16(p.v) \o n.n \o SortedParams(ps.ps))
 
+\* --- symbol converters (Scanner::convert_entry / convert_token with the
+\* base64 / base16 / base32hex SymbolConverter, Nsec3Salt's converter).  A
+\* symbol is handed over as a character (Symbol::into_char): a plain
+\* character or a simple escape of printable ASCII; a decimal escape is not a
+\* character.  Characters above U+007F (and octets that are not UTF-8 at all,
+\* which the tokenizer rejects) belong to none of the alphabets: -1.
+CharOf(s) == IF IsPlain(s) THEN (IF s < 128 THEN s ELSE -1)
+             ELSE IF IsSimple(s) /\ SymOct(s) >= 32 /\ SymOct(s) < 127 THEN SymOct(s) ELSE -1
+\* all symbols of the tokens from index i to the end of the entry
+EntrySyms(toks, i) == IF i > Len(toks) THEN <<>> ELSE Concat([k \in 1..(Len(toks) - i + 1) |-> toks[i + k - 1].syms])
+DataOk(o) == [r |-> "ok", o |-> o]
+
+\* RFC 4648 4: A-Z a-z 0-9 + /, '=' padding only as the third / fourth
+\* character of the last group, nothing after a padded group, no partial group
+B64Val(c) == IF c >= 65 /\ c <= 90 THEN c - 65 ELSE IF c >= 97 /\ c <= 122 THEN c - 71
+             ELSE IF c >= 48 /\ c <= 57 THEN c + 4 ELSE IF c = 43 THEN 62 ELSE IF c = 47 THEN 63 ELSE -1
+B64PAD == 64
+RECURSIVE B64From(_, _, _, _, _)
+B64From(syms, i, grp, out, done) ==
+  IF i > Len(syms) THEN (IF grp # <<>> THEN ErrR ELSE DataOk(out))
+  ELSE IF done THEN ErrR                                             \* trailing data
+  ELSE LET c == CharOf(syms[i])
+           v == IF c = 61 THEN (IF Len(grp) < 2 THEN -1 ELSE B64PAD) ELSE IF c < 0 THEN -1 ELSE B64Val(c)
+           g == Append(grp, v)
+       IN IF v = -1 THEN ErrR
+          ELSE IF Len(g) < 4 THEN B64From(syms, i + 1, g, out, FALSE)
+          ELSE LET o1 == (g[1] * 4 + g[2] \div 16) % 256
+                   o2 == ((g[2] % 16) * 16 + g[3] \div 4) % 256
+                   o3 == ((g[3] % 4) * 64 + g[4]) % 256
+               IN IF g[3] = B64PAD
+                  THEN (IF g[4] = B64PAD THEN B64From(syms, i + 1, <<>>, Append(out, o1), TRUE) ELSE ErrR)
+                  ELSE IF g[4] = B64PAD THEN B64From(syms, i + 1, <<>>, out \o <<o1, o2>>, TRUE)
+                  ELSE B64From(syms, i + 1, <<>>, out \o <<o1, o2, o3>>, FALSE)
+B64Decode(syms) == B64From(syms, 1, <<>>, <<>>, FALSE)
+
+\* base16: an even number of hex digits of either case
+HexDigit(s) == LET c == CharOf(s) IN
+  IF c < 0 THEN -1 ELSE IF IsDigit(c) THEN c - 48
+  ELSE IF c >= 65 /\ c <= 70 THEN c - 55 ELSE IF c >= 97 /\ c <= 102 THEN c - 87 ELSE -1
+HexDecode(syms) ==
+  IF \E k \in 1..Len(syms) : HexDigit(syms[k]) < 0 THEN ErrR
+  ELSE IF Len(syms) % 2 # 0 THEN ErrR
+  ELSE DataOk([k \in 1..(Len(syms) \div 2) |-> 16 * HexDigit(syms[2 * k - 1]) + HexDigit(syms[2 * k])])
+
+\* base32hex without padding (RFC 5155 3.3): 0-9 A-V of either case; 8
+\* characters give 5 octets; a last group of 2 / 4 / 5 / 7 characters gives
+\* 1 / 2 / 3 / 4 octets, one of 1 / 3 / 6 is an error
+B32Val(c) == IF c < 0 THEN -1 ELSE IF IsDigit(c) THEN c - 48
+             ELSE IF c >= 65 /\ c <= 86 THEN c - 55 ELSE IF c >= 97 /\ c <= 118 THEN c - 87 ELSE -1
+B32Group(g) ==   \* g: 8 values (missing ones 0)
+  << (g[1] * 8 + g[2] \div 4) % 256,
+     ((g[2] % 4) * 64 + g[3] * 2 + g[4] \div 16) % 256,
+     ((g[4] % 16) * 16 + g[5] \div 2) % 256,
+     ((g[5] % 2) * 128 + g[6] * 4 + g[7] \div 8) % 256,
+     ((g[7] % 8) * 32 + g[8]) % 256 >>
+RECURSIVE B32From(_, _, _)
+B32From(vals, i, out) ==
+  LET rest == Len(vals) - i + 1 IN
+  IF rest = 0 THEN DataOk(out)
+  ELSE IF rest >= 8 THEN B32From(vals, i + 8, out \o B32Group(SubSeq(vals, i, i + 7)))
+  ELSE IF rest \in {1, 3, 6} THEN ErrR
+  ELSE LET g == [k \in 1..8 |-> IF k <= rest THEN vals[i + k - 1] ELSE 0]
+           n == CASE rest = 2 -> 1 [] rest = 4 -> 2 [] rest = 5 -> 3 [] rest = 7 -> 4
+       IN DataOk(out \o SubSeq(B32Group(g), 1, n))
+B32Decode(syms) ==
+  LET vals == [k \in 1..Len(syms) |-> B32Val(CharOf(syms[k]))] IN
+  IF \E k \in 1..Len(vals) : vals[k] < 0 THEN ErrR ELSE B32From(vals, 1, <<>>)
+
+\* u8 by impl_scan_unsigned! (digit symbols) and by str::parse (the iana
+\* types that only have numbers: algorithms, digest types, TLSA fields)
+ScanU8(tok, dv) == ScanIntTok(tok, 25, 5, dv)
+ScanU8Str(tok) == LET a == ScanAscii(tok) IN IF a.r # "ok" THEN ErrR ELSE ParseU(a.s, 25, 5)
+
+\* the fixed fields in front (kinds "u8" / "u16" / "u32" / "str8"), then the
+\* rest of the entry through a converter
+FieldOf(kind, tok, dv) ==
+  CASE kind = "u8" -> ScanU8(tok, dv) [] kind = "u16" -> ScanU16(tok, dv)
+    [] kind = "u32" -> ScanU32(tok, dv) [] kind = "str8" -> ScanU8Str(tok)
+FieldEnc(kind, v) == CASE kind \in {"u8", "str8"} -> <<v>> [] kind = "u16" -> EncU16(v) [] kind = "u32" -> EncU32(v)
+RECURSIVE FieldsFrom(_, _, _, _, _, _)
+FieldsFrom(kinds, k, toks, i, acc, dv) ==
+  IF k > Len(kinds) THEN [r |-> "ok", o |-> acc, next |-> i]
+  ELSE IF i > Len(toks) THEN ErrR
+  ELSE LET f == FieldOf(kinds[k], toks[i], dv)
+       IN IF f.r # "ok" THEN f ELSE FieldsFrom(kinds, k + 1, toks, i + 1, acc \o FieldEnc(kinds[k], f.v), dv)
+
+\* convert_entry: no token at all is fine when the line ends there
+RdFieldsThen(kinds, conv, toks, i, mode, dv) ==
+  LET f == FieldsFrom(kinds, 1, toks, i, <<>>, dv) IN
+  IF f.r # "ok" THEN f
+  ELSE LET syms == EntrySyms(toks, f.next)
+           d == IF conv = "b64" THEN B64Decode(syms) ELSE HexDecode(syms)
+       IN IF d.r # "ok" THEN d
+          ELSE IF mode # "lf" THEN ErrR
+          ELSE IF Len(f.o) + Len(d.o) > 65535 THEN UnmodR      \* only some of the types check the length
+          ELSE RdOk(f.o \o d.o)
+
+\* NSEC3 salt (convert_token): "-" is the empty salt, otherwise hex digits
+SaltOf(tok) ==
+  LET s == tok.syms IN
+  IF s # <<>> /\ CharOf(s[1]) = 45 THEN (IF Len(s) = 1 THEN DataOk(<<>>) ELSE ErrR)
+  ELSE LET h == HexDecode(s) IN IF h.r # "ok" THEN h ELSE IF Len(h.o) > 255 THEN ErrR ELSE h
+
+\* type bitmap (RtypeBitmap::scan): the remaining tokens are type mnemonics
+RECURSIVE WindowsFrom(_, _)
+WindowsFrom(types, w) ==
+  IF w > 255 THEN <<>>
+  ELSE LET low == {t % 256 : t \in {x \in types : x \div 256 = w}} IN
+    IF low = {} THEN WindowsFrom(types, w + 1)
+    ELSE LET top == CHOOSE m \in low : \A x \in low : x <= m
+             n == top \div 8 + 1
+             Bit(k, b) == IF ((k - 1) * 8 + b) \in low THEN 2 ^ (7 - b) ELSE 0
+         IN <<w, n>> \o [k \in 1..n |-> Bit(k, 0) + Bit(k, 1) + Bit(k, 2) + Bit(k, 3) + Bit(k, 4) + Bit(k, 5) + Bit(k, 6) + Bit(k, 7)]
+            \o WindowsFrom(types, w + 1)
+RdBitmap(toks, i, mode) ==
+  LET n == Len(toks) - i + 1
+      a == [k \in 1..n |-> ScanAscii(toks[i + k - 1])] IN
+  IF \E k \in 1..n : a[k].r # "ok" THEN ErrR
+  ELSE LET y == [k \in 1..n |-> RtypeOf(a[k].s)] IN
+    IF \E k \in 1..n : y[k].r # "ok" THEN ErrR
+    ELSE IF mode # "lf" THEN ErrR
+    ELSE RdOk(WindowsFrom({y[k].v : k \in 1..n}, 0))
+
+\* NSEC: next name, bitmap
+RdNsec(toks, i, mode, origin, dv) ==
+  IF i > Len(toks) THEN ErrR
+  ELSE LET n == ScanName(toks[i], origin, dv) IN
+    IF n.r # "ok" THEN n
+    ELSE LET b == RdBitmap(toks, i + 1, mode) IN IF b.r # "ok" THEN b ELSE RdOk(n.n \o b.rd)
+
+\* NSEC3PARAM: algorithm, flags, iterations, salt; NSEC3: the same, then the
+\* base32hex owner hash (at most 255 octets) and the bitmap
+RdNsec3(full, toks, i, mode, dv) ==
+  LET f == FieldsFrom(<<"str8", "u8", "u16">>, 1, toks, i, <<>>, dv) IN
+  IF f.r # "ok" THEN f
+  ELSE IF f.next > Len(toks) THEN ErrR
+  ELSE LET s == SaltOf(toks[f.next]) IN
+    IF s.r # "ok" THEN s
+    ELSE LET head == f.o \o <<Len(s.o)>> \o s.o IN
+      IF ~full THEN (IF mode # "lf" \/ f.next < Len(toks) THEN ErrR ELSE RdOk(head))
+      ELSE IF f.next + 1 > Len(toks) THEN ErrR
+      ELSE LET h == B32Decode(toks[f.next + 1].syms) IN
+        IF h.r # "ok" THEN h
+        ELSE IF Len(h.o) > 255 THEN ErrR
+        ELSE LET b == RdBitmap(toks, f.next + 2, mode) IN
+          IF b.r # "ok" THEN b ELSE RdOk(head \o <<Len(h.o)>> \o h.o \o b.rd)
+
+\* SOA: two names, serial, four TTL values
+RdSoa(toks, i, mode, origin, dv) ==
+  IF i + 1 > Len(toks) THEN ErrR
+  ELSE LET m == ScanName(toks[i], origin, dv) IN
+    IF m.r # "ok" THEN m
+    ELSE LET rn == ScanName(toks[i + 1], origin, dv) IN
+      IF rn.r # "ok" THEN rn
+      ELSE LET f == FieldsFrom(<<"u32", "u32", "u32", "u32", "u32">>, 1, toks, i + 2, <<>>, dv) IN
+        IF f.r # "ok" THEN f
+        ELSE IF mode # "lf" \/ f.next <= Len(toks) THEN ErrR
+        ELSE RdOk(m.n \o rn.n \o f.o)
+
 IsMarker(tok) == ~tok.q /\ tok.syms = <<256 + HASH>>
 NameTypes == {2, 5, 12, 39}          \* NS CNAME PTR DNAME (one name each)
-ModelledTypes == NameTypes \cup {13, 15, 16, 64, 65}
+B64Types == {48, 60, 61}            \* DNSKEY CDNSKEY OPENPGPKEY
+HexTypes == {43, 59, 52}            \* DS CDS TLSA
+ModelledTypes == NameTypes \cup {6, 13, 15, 16, 64, 65, 47, 50, 51} \cup B64Types \cup HexTypes
 
 Rdata(rtype, toks, i, mode, origin, dv) ==
   IF i <= Len(toks) /\ IsMarker(toks[i])
@@ -491,14 +652,24 @@ Rdata(rtype, toks, i, mode, origin, dv) ==
   ELSE IF rtype = 15 THEN RdMx(toks, i, mode, origin, dv)
   ELSE IF rtype = 13 THEN RdHinfo(toks, i, mode, dv)
   ELSE IF rtype \in {64, 65} THEN RdSvcb(toks, i, mode, origin, dv)
+  ELSE IF rtype = 61 THEN RdFieldsThen(<<>>, "b64", toks, i, mode, dv)
+  ELSE IF rtype \in {48, 60} THEN RdFieldsThen(<<"u16", "u8", "str8">>, "b64", toks, i, mode, dv)
+  ELSE IF rtype \in {43, 59} THEN RdFieldsThen(<<"u16", "str8", "str8">>, "hex", toks, i, mode, dv)
+  ELSE IF rtype = 52 THEN RdFieldsThen(<<"str8", "str8", "str8">>, "hex", toks, i, mode, dv)
+  ELSE IF rtype = 47 THEN RdNsec(toks, i, mode, origin, dv)
+  ELSE IF rtype = 50 THEN RdNsec3(TRUE, toks, i, mode, dv)
+  ELSE IF rtype = 51 THEN RdNsec3(FALSE, toks, i, mode, dv)
+  ELSE IF rtype = 6 THEN RdSoa(toks, i, mode, origin, dv)
   ELSE UnmodR
 
 \* ------------------------------------------------------ entry machine
 \* origin/lastOwner: wire octets, <<>> = none; dollarTtl/lastClass: -1 = none
-EnInit(origin, defaultClass) ==
+\* requireValid: FALSE after Zonefile::allow_invalid()
+EnInitV(origin, defaultClass, rv) ==
   [origin |-> origin, lastOwner |-> <<>>, lastTtl |-> 3600, dollarTtl |-> -1,
-   lastClass |-> defaultClass, requireValid |-> TRUE, toks |-> <<>>, out |-> <<>>, st |-> "run",
+   lastClass |-> defaultClass, requireValid |-> rv, toks |-> <<>>, out |-> <<>>, st |-> "run",
    sw |-> -1]
+EnInit(origin, defaultClass) == EnInitV(origin, defaultClass, TRUE)
 
 Stop(en, st) == [en EXCEPT !.st = st, !.toks = <<>>]
 StopOf(en, r) == Stop(en, IF r.r = "panic" THEN "panic" ELSE IF r.r = "unmod" THEN "unmod" ELSE "err")
@@ -602,7 +773,8 @@ ScanEntry(en, mode, dv) ==
   ELSE RecordExplicitOwner(en, mode, dv)
 
 \* ------------------------------------------------------------- reader
-RdInit(origin, defaultClass) == [tk |-> TkInit, en |-> EnInit(origin, defaultClass)]
+RdInitV(origin, defaultClass, rv) == [tk |-> TkInit, en |-> EnInitV(origin, defaultClass, rv)]
+RdInit(origin, defaultClass) == RdInitV(origin, defaultClass, TRUE)
 
 \* en.sw: under D_charstr_entry_no_token a TXT entry without data reads over
 \* its line feed (position sw).  If an unquoted token starts right there the
@@ -661,6 +833,67 @@ OutcomeOf(en) ==
   ELSE [entries |-> en.out, err |-> en.st = "err"]
 
 Outcome(m, dv) == OutcomeOf(Finish(m, dv))
-ReadAll(text, origin, defaultClass, dv) ==
-  Outcome(FeedAll(RdInit(origin, defaultClass), text, 1, dv), dv)
+ReadAllV(text, origin, defaultClass, rv, dv) ==
+  Outcome(FeedAll(RdInitV(origin, defaultClass, rv), text, 1, dv), dv)
+ReadAll(text, origin, defaultClass, dv) == ReadAllV(text, origin, defaultClass, TRUE, dv)
+\* ------------------------------------------------- construction routes
+\* The text can reach the reader's buffer by several routes (From<&[u8]>,
+\* From<&str>, Zonefile::load from a reader, new / default / with_capacity
+\* followed by extend_from_slice in pieces, reserve and the BufMut interface
+\* in pieces).  All of them build the same buffer: the concatenation.
+Routes == <<"slice", "str", "load", "extend", "bufmut", "capacity">>
+Loaded(route, chunks) == Concat(chunks)
+\* the pieces a chunked route appends, of size n (the last one shorter)
+RECURSIVE ChunksOf(_, _)
+ChunksOf(text, n) == IF Len(text) <= n THEN <<text>> ELSE <<SubSeq(text, 1, n)>> \o ChunksOf(SubSeq(text, n + 1, Len(text)), n)
+
+\* ------------------------------------- zonetree::parsed::Zonefile
+\* TryFrom<inplace::Zonefile> drives the reader through its Iterator route
+\* and classifies every record on insert (RFC 1034 4.2.1): apex and class
+\* come from the first record, which must be the SOA; records outside the
+\* zone are set aside; NS / DS below the apex make a zone cut unless other
+\* data than glue or a CNAME is at that name; a CNAME excludes everything
+\* else; other data cannot join a cut (glue can) or a CNAME.  Observable:
+\* the list of (owner, error kind) in reading order -- empty means Ok, and
+\* then the apex and class -- and whether the conversion to a ZoneBuilder
+\* has to fail (records outside the zone, a cut with DS but no NS).
+RECURSIVE WireLabels(_, _)
+WireLabels(n, i) == IF i > Len(n) \/ n[i] = 0 THEN <<>>
+                    ELSE <<LowerSeq(SubSeq(n, i + 1, i + n[i]))>> \o WireLabels(n, i + n[i] + 1)
+LabelsOf(n) == WireLabels(n, 1)
+LabelsEndWith(a, b) == Len(a) >= Len(b) /\ SubSeq(a, Len(a) - Len(b) + 1, Len(a)) = b
+IsGlueType(t) == t \in {1, 28}
+PzInit == [has |-> FALSE, apex |-> <<>>, apexWire |-> <<>>, class |-> -1, normal |-> {}, cutNs |-> {}, cutDs |-> {},
+           cnames |-> {}, ooz |-> 0, errs |-> <<>>]
+PzErr(z, r, kind) == [z EXCEPT !.errs = Append(@, [owner |-> r.owner, kind |-> kind])]
+PzInsert(z0, r) ==
+  LET o == LabelsOf(r.owner) IN
+  IF ~z0.has /\ r.rtype # 6 THEN PzErr(z0, r, "MissingSoa")
+  ELSE LET z == IF z0.has THEN z0 ELSE [z0 EXCEPT !.has = TRUE, !.apex = o, !.apexWire = r.owner, !.class = r.class] IN
+    IF r.class # z.class THEN PzErr(z, r, "ClassMismatch")
+    ELSE IF ~LabelsEndWith(o, z.apex) THEN [z EXCEPT !.ooz = @ + 1]
+    ELSE IF r.rtype \in {2, 43} /\ o # z.apex THEN
+      (IF \E p \in z.normal : p[1] = o /\ ~IsGlueType(p[2]) THEN PzErr(z, r, "IllegalZoneCut")
+       ELSE IF o \in z.cnames THEN PzErr(z, r, "IllegalZoneCut")
+       ELSE [z EXCEPT !.cutNs = IF r.rtype = 2 THEN @ \cup {o} ELSE @,
+                      !.cutDs = IF r.rtype = 43 THEN @ \cup {o} ELSE @])
+    ELSE IF r.rtype = 5 THEN
+      (IF \E p \in z.normal : p[1] = o THEN PzErr(z, r, "IllegalCname")
+       ELSE IF o \in (z.cutNs \cup z.cutDs) THEN PzErr(z, r, "IllegalCname")
+       ELSE IF o \in z.cnames THEN PzErr(z, r, "MultipleCnames")
+       ELSE [z EXCEPT !.cnames = @ \cup {o}])
+    ELSE IF ~IsGlueType(r.rtype) /\ o \in (z.cutNs \cup z.cutDs) THEN PzErr(z, r, "IllegalRecord")
+    ELSE IF o \in z.cnames THEN PzErr(z, r, "IllegalRecord")
+    ELSE [z EXCEPT !.normal = @ \cup {<<o, r.rtype>>}]
+RECURSIVE PzFrom(_, _, _)
+PzFrom(z, es, i) ==
+  IF i > Len(es) THEN z
+  ELSE PzFrom(IF "include" \in DOMAIN es[i] THEN z ELSE PzInsert(z, es[i]), es, i + 1)
+\* o: an outcome [entries, err] of the reader
+ParsedOf(o) ==
+  LET z == PzFrom(PzInit, o.entries, 1)
+      errs == IF o.err THEN Append(z.errs, [owner |-> <<0>>, kind |-> "MalformedRecord"]) ELSE z.errs
+  IN IF errs # <<>> THEN [ok |-> FALSE, errors |-> errs]
+     ELSE [ok |-> TRUE, errors |-> <<>>, apex |-> z.apexWire, class |-> z.class,
+           builder_must_fail |-> z.ooz > 0 \/ (z.cutDs \ z.cutNs) # {}]
 =============================================================================
